@@ -1063,6 +1063,79 @@ def rule_r12(ctx):
                 r.ob(f, "%s line %s: nothing of the container is changed before it" % (a.node["fn"], a.line))
 
 
+class _FailedAllocClient(Client):
+    """state: None | ('pending', var) | 'failed' | 'ok' -- follows one allocation result through its NULL test"""
+
+    def __init__(self, fn, params):
+        self.fn = fn
+        self.params = params
+        self.bad = []
+
+    def init(self, sim):
+        return None
+
+    def node(self, st, n, sim):
+        k = n.get("k")
+        fn = self.fn
+        if st is None or st == "ok":
+            var = None
+            if k == "asg" and n.get("op") == "=" and n["lhs"].get("k") == "var":
+                e = _strip_cast(fn.expand(n["rhs"]))
+                if e is not None and e.get("k") == "call" and e.get("fn") in ("nni_alloc", "nni_zalloc"):
+                    var = n["lhs"]["n"]
+            if var:
+                return ("pending", var)
+            return st
+        if st == "failed":
+            if k == "asg" and n["lhs"].get("k") in ("mem", "idx"):
+                root = n["lhs"]
+                while root is not None and root.get("k") in ("mem", "idx"):
+                    root = root["b"]
+                if root is not None and root.get("k") == "var" and root["n"] in self.params:
+                    self.bad.append((sim.here(), "store", show(n["lhs"]), sim.lines()))
+                    return "ok"
+            if k == "ret" and n.get("e") is not None:
+                e = fn.expand(n["e"])
+                if not (e.get("k") == "enum" and e.get("n") == "NNG_ENOMEM") and const_of(e) is not None:
+                    self.bad.append((sim.here(), "ret", show(e), sim.lines()))
+                return "ok"
+        return st
+
+    def branch(self, st, subj, val, sim):
+        if isinstance(st, tuple) and st[0] == "pending" and subj.get("k") == "var" and subj["n"] == st[1]:
+            z = val[0] == "Z" or (val[0] == "EQ" and val[1] == 0)
+            return "failed" if z else "ok"
+        return st
+
+
+def rule_r12b(ctx):
+    r = ctx.rule("C20.R17", "T3", "a failed growth is reported and changes nothing: in the functions that re-allocate a live container, on "
+                 "the path on which the new storage could not be allocated no field of the container is stored and the function "
+                 "returns NNG_ENOMEM -- a NULL result that is mistaken for 'nothing to allocate' changes the capacity while the "
+                 "storage keeps its old size", floor=4)
+    prog = ctx.prog
+    n = 0
+    for name, file in RESIZERS:
+        f = prog.need(name, file)
+        if not any(True for _ in f.calls(("nni_alloc", "nni_zalloc"))):
+            raise AnalysisBroken("%s: allocation vanished" % name)
+        n += 1
+        cl = _FailedAllocClient(f, {p_["n"] for p_ in f.params})
+        sim = Sim(f, cl, max_states=20000)
+        sim.run()
+        if sim.truncated:
+            raise AnalysisBroken("simulation truncated in %s" % name)
+        if cl.bad:
+            line, what, txt, lines = cl.bad[0]
+            ctx.fail(r, f, "allocation failure %s" % ("followed by a store to %s" % txt if what == "store" else "answered with %s" % txt), line,
+                     "%s: on the path on which nni_alloc / nni_zalloc returned NULL the function %s (line %s) instead of returning "
+                     "NNG_ENOMEM with the container untouched" % (name, "stores " + txt if what == "store" else "returns " + txt, line), lines)
+        else:
+            r.ob(f, "allocation failure: NNG_ENOMEM, container untouched")
+    if n < 4:
+        raise AnalysisBroken("only %d resizers" % n)
+
+
 # ---------------------------------------------------------------------------
 # R13: a half-built reference-counted object is released with the raw free, not with the counted release
 
@@ -1387,6 +1460,46 @@ def rule_r15(ctx):
         raise AnalysisBroken("only %d global objects handed to functions on the nng_fini path" % n)
 
 
+# ---------------------------------------------------------------------------
+# R16: a reference taken on behalf of an object exists only once that object does
+
+
+def rule_r16(ctx):
+    from .. import guards as G
+    r = ctx.rule("C20.R16", "T4", "a reference held for a new object is taken only when the object exists: where a dial function takes a "
+                 "reference on its dialer 'for the stream' (nni_refcnt_hold(&d->ref)) and the stream it creates gives that "
+                 "reference back when it is freed, the hold is made on the path on which the stream's allocation succeeded -- "
+                 "taken earlier, the failing allocation returns NNG_ENOMEM with the count raised for good, and the dialer is "
+                 "never freed", floor=2)
+    prog = ctx.prog
+    n = 0
+    for f in prog.functions:
+        if f.cfg_failed or "/platform/" not in "/" + f.file:
+            continue
+        holds = [c for c in f.calls("nni_refcnt_hold")]
+        if not holds:
+            continue
+        allocs = [c for c in f.calls() if (c.node.get("fn") or "").endswith("_alloc") and c.node["args"] and
+                  (lambda a: a is not None and a.get("k") == "un" and a.get("op") == "&" and a["e"].get("k") == "var")(f.expand(c.node["args"][0]))]
+        if not allocs:
+            continue
+        ok_edges = {}
+        for a in allocs:
+            for b, (nz, z) in f.value_edges(a).items():
+                ok_edges[b] = z
+        for h in holds:
+            n += 1
+            if ok_edges and G.dominated(f, (h.b, h.i), ok_edges):
+                r.ob(f, "nni_refcnt_hold line %s: after the allocation succeeded" % h.line)
+            else:
+                ctx.fail(r, f, "reference for the new object taken before it exists", h.line,
+                         "%s takes the reference at line %s before %s (line %s) is known to have succeeded: when that allocation "
+                         "fails the function reports NNG_ENOMEM, nobody gives the reference back, and the dialer survives nng_fini"
+                         % (f.name, h.line, allocs[0].node["fn"], allocs[0].line))
+    if n < 2:
+        raise AnalysisBroken("only %d references taken on behalf of a new stream found" % n)
+
+
 def run(ctx):
     ctx.guard(rule_r1)
     ctx.guard(rule_r2)
@@ -1398,7 +1511,9 @@ def run(ctx):
     ctx.guard(rule_r10)
     ctx.guard(rule_r11)
     ctx.guard(rule_r12)
+    ctx.guard(rule_r12b)
     ctx.guard(rule_r13)
     ctx.guard(rule_r14)
     ctx.guard(rule_r6)
     ctx.guard(rule_r15)
+    ctx.guard(rule_r16)
